@@ -681,6 +681,36 @@ func runHistory(c *run.Ctx, mat *Material, rep int, census bool) {
 	curPlan.Store(replayPlan)
 	theBus.judge(c, self)
 
+	// no-loss: a confirm packet the node accepted (InsertConfirms returned nil) is a completed write; every valid
+	// deputy signature it carried must be among the confirms of that block for as long as the node holds the block
+	held := map[string]bool{}
+	for _, h := range final.Blocks {
+		held[h] = true
+	}
+	for ci := range recs {
+		for i := range recs[ci] {
+			rq := mat.Clients[ci][i]
+			if rq.Kind != "confirms" || !recs[ci][i].OK || rq.WrongHeight {
+				continue
+			}
+			hx := common.HexToHash(mat.Tree[rq.Block].Hash).Hex()
+			if !held[hx] {
+				continue
+			}
+			have := map[string]bool{}
+			for _, id := range final.Confirms[hx] {
+				have[id] = true
+			}
+			for _, d := range rq.Signers {
+				c.Stat("accepted_confirms_checked_for_loss", 1)
+				if id := shortID(w.Deputies[d].NodeID); !have[id] && id != own {
+					c.Violation("C19/accepted-confirm-lost", fmt.Sprintf("InsertConfirms accepted a packet with the signature of deputy %d for block %s (height %d), but the block's stored confirms do not contain it after the history: %v",
+						d, hx[:12], mat.Tree[rq.Block].Height, final.Confirms[hx]), &RunRecord{Kind: "lin", Mat: mat, Recs: flatten(recs), Mined: minedHex, Final: final})
+				}
+			}
+		}
+	}
+
 	// statistics
 	var flat []Rec
 	nMineReq := 0
@@ -763,6 +793,14 @@ func runHistory(c *run.Ctx, mat *Material, rep int, census bool) {
 	nontrivial := overl > 0 && (stableAdv > 0 || len(mined) > 0)
 	c.Case(shapeOf(mat), nontrivial, map[string]interface{}{"shape": mat.Shape, "deputies": mat.World.Deputies, "tree": len(mat.Tree), "clients": len(mat.Clients),
 		"requests": len(flat), "overlapping_pairs": overl, "stable_advanced": stableAdv, "mined": len(mined), "lin_replays": res.replays, "order": res.order})
+}
+
+func flatten(recs [][]Rec) []Rec {
+	var out []Rec
+	for _, rs := range recs {
+		out = append(out, rs...)
+	}
+	return out
 }
 
 var retired []*fx.Node
